@@ -99,6 +99,10 @@ def generate(rng, repo_root, opts=None):
     return scn
 
 
+def generate_from_rng(rng, repo_root, tier="thorough", opts=None):
+    return generate(rng, repo_root, opts)
+
+
 def scenario_for(k, batch_seed, tier, repo_root, opts=None):
     return generate(seeds.rng_for(ID, batch_seed, k), repo_root, opts)
 
